@@ -208,22 +208,35 @@ def facts(repo):
     # _get_pixel_id rounding
     gp = _func(tree, '_get_pixel_id')
     modes = []
+    signed = []
     for tgt, k, ax in (('py', 0, 'y'), ('px', 1, 'x')):
         a = _assign_to(gp, tgt)
         if len(a) != 1:
             raise ValueError('_get_pixel_id: assignment to %s' % tgt)
-        q = ast.dump(ast.parse('abs(point[%d] - %s_coords[0]) / cellsize_%s' % (k, ax, ax), mode='eval').body)
+        q_abs = ast.dump(ast.parse('abs(point[%d] - %s_coords[0]) / cellsize_%s' % (k, ax, ax), mode='eval').body)
+        q_sgn = ast.dump(ast.parse('sign_%s * (point[%d] - %s_coords[0]) / cellsize_%s' % (ax, k, ax, ax), mode='eval').body)
         e = a[0].value
         if not (isinstance(e, ast.Call) and isinstance(e.func, ast.Name) and e.func.id == 'int' and len(e.args) == 1 and not e.keywords):
             raise ValueError('_get_pixel_id: %s is not int(...)' % tgt)
         inner = e.args[0]
-        if ast.dump(inner) == q:
-            modes.append('false')
-        elif isinstance(inner, ast.Call) and ast.dump(inner.func) == ast.dump(ast.parse('np.rint', mode='eval').body) \
-                and len(inner.args) == 1 and not inner.keywords and ast.dump(inner.args[0]) == q:
-            modes.append('true')
+        rint = False
+        if isinstance(inner, ast.Call) and ast.dump(inner.func) == ast.dump(ast.parse('np.rint', mode='eval').body) \
+                and len(inner.args) == 1 and not inner.keywords:
+            rint = True
+            inner = inner.args[0]
+        if ast.dump(inner) == q_abs:
+            signed.append('false')
+        elif ast.dump(inner) == q_sgn:
+            sg = _assign_to(gp, 'sign_%s' % ax)
+            want = ast.dump(ast.parse('sign_%s = -1 if %s_coords[-1] < %s_coords[0] else 1' % (ax, ax, ax)).body[0])
+            if len(sg) != 1 or ast.dump(sg[0]) != want:
+                raise ValueError('_get_pixel_id: unrecognised definition of sign_%s' % ax)
+            signed.append('true')
         else:
-            raise ValueError('_get_pixel_id: unrecognised conversion %s' % ast.dump(inner))
+            raise ValueError('_get_pixel_id: unrecognised conversion %s' % ast.dump(e.args[0]))
+        modes.append('true' if rint else 'false')
+    if signed[0] != signed[1]:
+        raise ValueError('_get_pixel_id: py and px use different offsets')
     if modes[0] != modes[1]:
         raise ValueError('_get_pixel_id: py and px use different conversions')
     want_res = ast.dump(ast.parse('cellsize_x, cellsize_y = get_dataarray_resolution(raster, xdim, ydim)').body[0])
@@ -251,7 +264,10 @@ Definition snap_init (height width : Z) : option (Z * Z * Z * Z) := %s.
 
 (* _get_pixel_id: int(np.rint(q)) -> true (round half even); int(q) -> false (truncate) *)
 Definition pixel_round_nearest : bool := %s.
-''' % (none, pairs(off8), pairs(off4), bound, snap, modes[0])
+
+(* _get_pixel_id: sign * (p - c0) with sign = -1 for descending coordinates -> true; abs(p - c0) -> false *)
+Definition pixel_signed : bool := %s.
+''' % (none, pairs(off8), pairs(off4), bound, snap, modes[0], signed[0])
     return {'Generated.v': out}
 
 
@@ -278,6 +294,16 @@ def run_kernel(pf, data, conn, barriers_arr, s, g):
     return img
 
 
+def _point(p, kind):
+    if kind == 'list':
+        return [p[0], p[1]]
+    if kind == 'ndarray':
+        return np.array([p[0], p[1]])
+    if kind == 'int' and float(p[0]).is_integer() and float(p[1]).is_integer():
+        return (int(p[0]), int(p[1]))
+    return (p[0], p[1])
+
+
 def run_api(case):
     """-> ('ok', 2-D list of floats) | ('err', code)"""
     from xrspatial import a_star_search
@@ -286,15 +312,44 @@ def run_api(case):
         data = data.astype(case['dtype'])
     attrs = {}
     if case.get('res') is not None:
-        attrs['res'] = tuple(case['res'])
-    agg = xr.DataArray(data, dims=['y', 'x'], coords={'y': np.array(case['ys'], dtype='float64'),
-                                                      'x': np.array(case['xs'], dtype='float64')}, attrs=attrs)
+        r = tuple(case['res'])
+        rk = case.get('res_kind', 'tuple')
+        if rk == 'list':
+            attrs['res'] = [r[0], r[1]]
+        elif rk == 'ndarray':
+            attrs['res'] = np.array([r[0], r[1]])
+        elif rk == 'scalar' and r[0] == r[1]:
+            attrs['res'] = r[0]
+        elif rk == 'int' and float(r[0]).is_integer() and float(r[1]).is_integer():
+            attrs['res'] = (int(r[0]), int(r[1]))
+        else:
+            attrs['res'] = r
+    ydim, xdim = case.get('dims', ['y', 'x'])
+    cdt = 'float64'
+    if case.get('coord_dtype') == 'int64' and all(float(v).is_integer() for v in case['ys'] + case['xs']):
+        cdt = 'int64'
+    agg = xr.DataArray(data, dims=[ydim, xdim], coords={ydim: np.array(case['ys'], dtype='float64').astype(cdt),
+                                                         xdim: np.array(case['xs'], dtype='float64').astype(cdt)}, attrs=attrs)
+    barriers = list(case['barriers'])
+    if case.get('barrier_kind') == 'int' and all(not isnan(b) and not math.isinf(b) and float(b).is_integer() for b in barriers):
+        barriers = [int(b) for b in barriers]
+    elif case.get('barrier_kind') == 'ndarray':
+        barriers = np.array(barriers, dtype='float64')
+    elif case.get('barrier_kind') == 'tuple':
+        barriers = tuple(barriers)
+    start = _point(case['start'], case.get('point_kind', 'tuple'))
+    goal = _point(case['goal'], case.get('point_kind', 'tuple'))
     try:
         with warnings.catch_warnings():
             warnings.simplefilter('ignore')
-            out = a_star_search(agg, tuple(case['start']), tuple(case['goal']), list(case['barriers']), 'x', 'y',
-                                connectivity=case['conn'], snap_start=bool(case['snap_start']),
-                                snap_goal=bool(case['snap_goal']))
+            if case.get('xy_default') and (ydim, xdim) == ('y', 'x'):
+                out = a_star_search(agg, start, goal, barriers,
+                                    connectivity=case['conn'], snap_start=bool(case['snap_start']),
+                                    snap_goal=bool(case['snap_goal']))
+            else:
+                out = a_star_search(agg, start, goal, barriers, xdim, ydim,
+                                    connectivity=case['conn'], snap_start=bool(case['snap_start']),
+                                    snap_goal=bool(case['snap_goal']))
     except ValueError as e:
         m = str(e)
         if 'start location outside' in m:
@@ -434,7 +489,19 @@ def oracle_api(case, res):
         return ('a_star_search raised (code %d) for start %r goal %r inside the raster' % (res[1], case['start'], case['goal']),
                 pixel_key(case))
     if outy_s or outx_s or outy_g or outx_g:
-        return None              # outside the domain: nothing is promised
+        # a point more than half a cell outside the raster denotes no cell: the only acceptable outcome is the documented
+        # refusal (ValueError "... location outside the surface graph"), never a path from some cell inside
+        who = 'start' if (outy_s or outx_s) else 'goal'
+        pt = case[who]
+        before = False
+        for coords, v, o in ((case['ys'], pt[0], outy_s if who == 'start' else outy_g),
+                             (case['xs'], pt[1], outx_s if who == 'start' else outx_g)):
+            if o and (len(coords) < 2 or (Fraction(v) - Fraction(coords[0])) * (Fraction(coords[-1]) - Fraction(coords[0])) < 0):
+                before = True
+        return ('the %s point %r lies more than half a cell outside the raster (y centres %r..%r, x centres %r..%r) but '
+                'a_star_search did not refuse it and returned a raster' % (who, pt, case['ys'][0], case['ys'][-1], case['xs'][0],
+                                                                          case['xs'][-1]),
+                'pixel-id-mirrors-outside-point' if before else None)
     starts = set(itertools.product(sy, sx))
     goals = set(itertools.product(gy, gx))
     if case['snap_start']:
@@ -573,9 +640,9 @@ BARRIER_VALUES = [0.0, 5.0, 7.0, 9.0]      # never used for a free cell
 FREE_VALUES = [1.0, 1.0, 2.0, 3.0, 4.0]
 
 
-def barrier_list(rng, allow_empty=True):
-    """barrier values exactly as a caller might list them: 0-4 values in ANY order (ascending, descending, shuffled),
-    sometimes with duplicates"""
+def barrier_list(rng, allow_empty=True, special=True):
+    """barrier values exactly as a caller might list them: 0-5 values in ANY order (ascending, descending, shuffled),
+    sometimes with duplicates, a value that occurs nowhere on the surface (11), NaN or +-inf entries"""
     u = rng.random()
     if u < 0.08 and allow_empty:
         return []
@@ -588,30 +655,43 @@ def barrier_list(rng, allow_empty=True):
         vals.sort(reverse=True)
     if rng.random() < 0.25:
         vals.insert(rng.randrange(len(vals) + 1), rng.choice(vals))
+    if rng.random() < 0.15:
+        vals.insert(rng.randrange(len(vals) + 1), 11.0)                      # absent from every surface
+    if special and rng.random() < 0.12:
+        vals.insert(rng.randrange(len(vals) + 1), rng.choice([float('nan'), float('inf'), float('-inf')]))
     return vals
 
 
 def decorate(rng, lay, integer=False):
-    """free cells get assorted values, blocked cells one of the listed barrier values (each of them is used when there are
-    enough blocked cells) or NaN (integer rasters: barrier values only)"""
-    barriers = barrier_list(rng, allow_empty=not integer)
+    """free cells get assorted values (incl. barrier candidates that are NOT listed this time, negatives, +-inf), blocked cells one
+    of the listed barrier values (each of them is used when there are enough blocked cells) or NaN (integer rasters: barrier
+    values only, all values within int8/uint8 range)"""
+    barriers = barrier_list(rng, allow_empty=not integer, special=not integer)
+    real = [b for b in barriers if not isnan(b) and b != 11.0]
     nblocked = sum(1 for row in lay for v in row if not v)
-    pool = list(dict.fromkeys(barriers))
+    pool = list(dict.fromkeys(real))
     rng.shuffle(pool)
+    freev = FREE_VALUES + [v for v in BARRIER_VALUES if v not in real]
+    if not integer:
+        freev = freev + [-2.0, 0.5] + [v for v in (float('inf'), float('-inf')) if v not in real]
+    if integer and not real:
+        real = pool = [0.0]
+        barriers = barriers + [0.0]
+        freev = [v for v in freev if v != 0.0]
     data = []
     k = 0
     for row in lay:
         r = []
         for v in row:
             if v:
-                r.append(rng.choice(FREE_VALUES) if (integer or rng.random() < 0.9) else float('inf'))
+                r.append(rng.choice(freev))
             else:
-                if not barriers or (not integer and rng.random() < (0.25 if nblocked > 1 else 0.1)):
+                if not real or (not integer and rng.random() < (0.25 if nblocked > 1 else 0.1)):
                     r.append(float('nan'))
                 elif k < len(pool):
                     r.append(pool[k])             # make sure every listed value occurs on the surface
                 else:
-                    r.append(rng.choice(barriers))
+                    r.append(rng.choice(real))
                 k += 1
         data.append(r)
     return data, barriers
@@ -680,9 +760,12 @@ def point_for(rng, coords, step, i, fam):
     return c + sgn * f * step
 
 
+OTHER_DTYPES = ['int8', 'int16', 'int32', 'uint8', 'uint16', 'uint32', 'uint64', 'float32']
+
+
 def gen_api_case(rng, lay, conn=None, snap=None, unit=False, fam=None, dtype='float64', ends=None):
     h, w = len(lay), len(lay[0])
-    data, barriers = decorate(rng, lay, integer=(dtype != 'float64'))
+    data, barriers = decorate(rng, lay, integer=not dtype.startswith('float'))
     if unit:
         ys, sy_ = [float(i) for i in range(h)], 1.0
         xs, sx_ = [float(i) for i in range(w)], 1.0
@@ -708,6 +791,11 @@ def gen_api_case(rng, lay, conn=None, snap=None, unit=False, fam=None, dtype='fl
     snap = snap if snap is not None else (rng.random() < 0.4, rng.random() < 0.4)
     case = dict(fn='api', data=data, barriers=barriers, dtype=dtype, conn=conn or rng.choice([4, 8]), snap_start=bool(snap[0]),
                 snap_goal=bool(snap[1]), ys=ys, xs=xs, res=res, fam=fam,
+                res_kind=rng.choice(['tuple', 'tuple', 'list', 'ndarray', 'scalar', 'int']),
+                dims=rng.choice([['y', 'x'], ['y', 'x'], ['lat', 'lon'], ['row', 'col']]), xy_default=rng.random() < 0.3,
+                coord_dtype=rng.choice(['float64', 'float64', 'int64']),
+                point_kind=rng.choice(['tuple', 'tuple', 'list', 'ndarray', 'int']),
+                barrier_kind=rng.choice(['list', 'list', 'list', 'int', 'ndarray', 'tuple']) if dtype == 'float64' else 'list',
                 start=[point_for(rng, ys, sy_, s[0], fam), point_for(rng, xs, sx_, s[1], fam)],
                 goal=[point_for(rng, ys, sy_, g[0], fam), point_for(rng, xs, sx_, g[1], fam)])
     return case
@@ -832,6 +920,15 @@ def api_batch(ctx, cases, label):
         ctx.case(case, nontrivial=any(not blocked_val(v, case['barriers']) for row in case['data'] for v in row))
         ctx.count('%s/conn%d/snap%d%d/%s/%s' % (label, case['conn'], case['snap_start'], case['snap_goal'], case.get('fam', '-'),
                                           case.get('dtype', 'float64')))
+        b = case['barriers']
+        fin = [v for v in b if not isnan(v) and not math.isinf(v)]
+        ctx.count('barriers/n=%d/%s%s%s' % (len(b), 'asc' if fin == sorted(fin) else ('desc' if fin == sorted(fin, reverse=True) else 'mixed'),
+                                            '+dup' if len(set(fin)) < len(fin) else '', '+naninf' if len(fin) < len(b) else ''))
+        ctx.count('form/dims=%s%s/res=%s/coords=%s/point=%s/barriers=%s' % (
+            case.get('dims', ['y', 'x'])[1], '-default' if case.get('xy_default') and case.get('dims', ['y', 'x'])[1] == 'x' else '',
+            case.get('res_kind') if case.get('res') else 'none', case.get('coord_dtype'), case.get('point_kind'), case.get('barrier_kind')))
+        ctx.count('shape/%s' % ('1xN' if len(case['data']) == 1 or len(case['data'][0]) == 1 else
+                                ('<=9' if max(len(case['data']), len(case['data'][0])) <= 9 else '>9')))
         res = run_api(case)
         o = oracle_api(case, res)
         if o is not None:
@@ -1008,14 +1105,51 @@ def canary(ctx):
         return False
 
 
+def _norm(c):
+    """undo the JSON encoding of NaN / inf (strings) in a stored case"""
+    c = dict(c)
+    for k in ('data',):
+        if k in c:
+            c[k] = [[float(v) for v in row] for row in c[k]]
+    for k in ('barriers', 'ys', 'xs', 'start', 'goal', 'point'):
+        if k in c and c[k] is not None:
+            c[k] = [float(v) for v in c[k]]
+    return c
+
+
 def _canary_main(cf, pfile):
     import json
     cases = json.load(open(cf))
     for i, c in enumerate(cases):
         with open(pfile, 'w') as f:
             f.write(str(i))
-        c['data'] = [[float(v) for v in row] for row in c['data']]
-        run_api(c)
+        run_api(_norm(c))
+
+
+def connectivity_probe(ctx):
+    """connectivity is quantified over {4, 8}: equivalent spellings (8.0, np.int64(4)) must behave like 4 / 8, anything else is
+    refused with ValueError by the unchanged code — it must never be silently treated as one of the two"""
+    from xrspatial import a_star_search
+    rng = ctx.rng
+    lay = [[1.0, 1.0, 1.0], [1.0, 0.0, 1.0], [1.0, 1.0, 1.0]]
+    agg = xr.DataArray(np.array(lay), dims=['y', 'x'], coords={'y': [0., 1., 2.], 'x': [0., 1., 2.]})
+    for conn in [0, 1, 2, 6, 16, -8, '8', None, 4.5]:
+        ctx.evaluations += 1
+        ctx.count('connectivity/invalid')
+        try:
+            out = a_star_search(agg, (0., 0.), (2., 2.), [0], connectivity=conn)
+        except (ValueError, TypeError):
+            continue
+        ctx.violation('correspondence', 'a_star_search accepted connectivity=%r (only 4 and 8 are defined) and returned %r' % (
+            conn, np.asarray(out.data).tolist()), dict(fn='connectivity', connectivity=repr(conn)))
+    for conn, same in [(8.0, 8), (np.int64(4), 4), (np.int32(8), 8)]:
+        ctx.evaluations += 1
+        ctx.count('connectivity/spelling')
+        a = np.asarray(a_star_search(agg, (0., 0.), (2., 2.), [0], connectivity=conn).data)
+        b = np.asarray(a_star_search(agg, (0., 0.), (2., 2.), [0], connectivity=same).data)
+        if not np.array_equal(a, b, equal_nan=True):
+            ctx.violation('oracle', 'connectivity=%r gives a different result from connectivity=%d' % (conn, same),
+                          dict(fn='connectivity', connectivity=repr(conn)))
 
 
 def run(ctx):
@@ -1034,13 +1168,14 @@ def run(ctx):
     far_islands(ctx, pf)
     # ---- public API on sampled small layouts (unit + fractional coordinates), snap on/off -------------
     cases = []
-    n_small = 1600 if quick else 16000
+    extra_dtypes = rng.sample(OTHER_DTYPES, 1) if quick else OTHER_DTYPES
+    n_small = 1500 if quick else 16000
     for i in range(n_small):
         h, w = rng.choice([(2, 2), (2, 3), (3, 2), (3, 3), (3, 3), (1, 3), (3, 1), (3, 4), (4, 3)])
         lay = [[1.0 if rng.random() < 0.6 else 0.0 for _ in range(w)] for _ in range(h)]
         snap = [(False, False), (True, False), (False, True), (True, True)][i % 4]
-        cases.append(gen_api_case(rng, lay, conn=(4, 8)[(i // 4) % 2], snap=snap, unit=(i % 3 == 0),
-                                  dtype='int64' if i % 10 == 9 else 'float64'))
+        dtype = 'int64' if i % 10 == 9 else (extra_dtypes[(i // 10) % len(extra_dtypes)] if i % 10 == 8 else 'float64')
+        cases.append(gen_api_case(rng, lay, conn=(4, 8)[(i // 4) % 2], snap=snap, unit=(i % 3 == 0), dtype=dtype))
     # snapping corner cases: a single crossable cell, every position, every end point
     for (h, w) in [(2, 2), (3, 3), (2, 4), (3, 2)]:
         for y in range(h):
@@ -1052,28 +1187,50 @@ def run(ctx):
     api_batch(ctx, cases, 'api-small')
     # ---- mazes with forced detours ---------------------------------------------------------------------
     cases = []
-    n_maze = 1400 if quick else 12000
+    n_maze = 1200 if quick else 12000
     for i in range(n_maze):
         h, w = rng.randint(3, 9), rng.randint(3, 9)
         if i % 3 == 0:
             h, w = rng.randint(6, 9), rng.randint(6, 9)
         cases.append(gen_api_case(rng, maze(rng, h, w), conn=(4, 8)[i % 2], unit=(i % 4 == 0)))
     api_batch(ctx, cases, 'api-maze')
+    # ---- rasters larger than 9x9 (mazes) and long single rows / columns ---------------------------------
+    cases = []
+    for i in range(24 if quick else 500):
+        hi = 16 if quick else 28
+        h, w = rng.randint(10, hi), rng.randint(3, hi)
+        if i % 2:
+            h, w = w, h
+        cases.append(gen_api_case(rng, maze(rng, h, w), conn=(4, 8)[i % 2], unit=(i % 3 == 0)))
+    for i in range(12 if quick else 200):
+        n = rng.randint(10, 40 if quick else 120)
+        h, w = (1, n) if i % 2 else (n, 1)
+        lay = [[1.0 if rng.random() < 0.9 else 0.0 for _ in range(w)] for _ in range(h)]
+        cases.append(gen_api_case(rng, lay, conn=(4, 8)[(i // 2) % 2], unit=(i % 3 == 0)))
+    api_batch(ctx, cases, 'api-large')
     # ---- malformed / edge stream -----------------------------------------------------------------------
     cases = []
-    for i in range(40 if quick else 400):
-        h, w = rng.choice([(1, 1), (1, 4), (4, 1), (2, 2), (3, 3)])
+    for i in range(120 if quick else 1200):
+        h, w = rng.choice([(1, 1), (1, 4), (4, 1), (2, 2), (3, 3), (4, 5)])
         lay = [[1.0 if rng.random() < 0.7 else 0.0 for _ in range(w)] for _ in range(h)]
         c = gen_api_case(rng, lay, unit=(i % 2 == 0))
         u = rng.random()
         if u < 0.3:
             c['res'] = None                      # single row/column without res: resolution undefined
-        elif u < 0.6 and len(c['xs']) > 1:       # a point more than half a cell outside
-            stepx = abs(c['xs'][1] - c['xs'][0])
-            c['goal'][1] = max(c['xs']) + stepx * rng.choice([0.75, 1.0, 3.0])
+        elif u < 0.7:                            # a point more than half a cell outside, on any side, start or goal
+            who = rng.choice(['start', 'goal'])
+            k = rng.choice([0, 1])
+            coords = c['ys'] if k == 0 else c['xs']
+            if len(coords) > 1:
+                step = abs(coords[1] - coords[0])
+            else:
+                step = c['res'][1 - k] if c.get('res') else 1.0
+            far = rng.choice([0.75, 1.0, 2.0, 3.0, 7.5])
+            c[who][k] = (max(coords) + step * far) if rng.random() < 0.5 else (min(coords) - step * far)
             c['fam'] = 'outside'
         cases.append(c)
     api_batch(ctx, cases, 'api-edge')
+    connectivity_probe(ctx)
     pixel_cases(ctx, 300 if quick else 4000)
     exact_cases(ctx, 150 if quick else 2000)
 
@@ -1091,6 +1248,7 @@ def search(ctx):
 
 def replay_case(ctx, case):
     pf = _pf()
+    case = _norm(case)
     ctx.case(case)
     fn = case.get('fn')
     if fn == 'api':
